@@ -5,6 +5,7 @@ import (
 	"math/big"
 	"os"
 	"path/filepath"
+	"sort"
 	"sync"
 	"time"
 
@@ -57,6 +58,11 @@ func c14Check2(cs []tcue, d int64, filler bool, d2 int64) string {
 	}
 	ptrs := append([]*astisub.Item(nil), sub.Items...)
 	someMetadata(sub, len(cs)+int(d%7))
+	if (len(cs)+int(d&3))%4 == 1 {
+		if p := guard(func() { prewarm(sub) }); p != "" {
+			return p
+		}
+	}
 	// another list of this process got a filler earlier, and its owner has since edited that cue in place
 	pristine := ""
 	if filler {
@@ -242,7 +248,7 @@ func c15Case(r *fw.Rand) (cs []tcue, a1, d1, a2, d2 int64, slopeKind string) {
 	day := int64(24 * time.Hour)
 	gran := fw.Pick(r, []int64{1, 1, 1000, 1000000, 1000000000})
 	rnd := func() int64 { return r.I64n(day/gran+1) * gran }
-	n := r.Range(1, 12)
+	n := 1 + listSize(r, 11)
 	cs = make([]tcue, n)
 	for i := range cs {
 		s := rnd()
@@ -329,6 +335,11 @@ func c15Check(cs []tcue, a1, d1, a2, d2 int64) string {
 	}
 	ptrs := append([]*astisub.Item(nil), sub.Items...)
 	someMetadata(sub, int(uint64(a1+d2)%7))
+	if (len(cs)+int(uint64(a1)&3))%4 == 1 {
+		if p := guard(func() { prewarm(sub) }); p != "" {
+			return p
+		}
+	}
 	if p := guard(func() {
 		sub.ApplyLinearCorrection(time.Duration(a1), time.Duration(d1), time.Duration(a2), time.Duration(d2))
 	}); p != "" {
@@ -361,11 +372,17 @@ func c15Check(cs []tcue, a1, d1, a2, d2 int64) string {
 		}
 	}
 	if slopePos {
-		for i := range bds {
-			for j := range bds {
-				if bds[i].in <= bds[j].in && bds[i].out > bds[j].out {
-					return fmt.Sprintf("%s: boundary order not preserved: %d<=%d but %d>%d", desc, bds[i].in, bds[j].in, bds[i].out, bds[j].out)
-				}
+		// for every pair: in_i <= in_j implies out_i <= out_j (sorted by input, the outputs never step down, and equal
+		// inputs have equal outputs)
+		sort.Slice(bds, func(i, j int) bool {
+			if bds[i].in != bds[j].in {
+				return bds[i].in < bds[j].in
+			}
+			return bds[i].out < bds[j].out
+		})
+		for j := 1; j < len(bds); j++ {
+			if bds[j-1].out > bds[j].out || (bds[j-1].in == bds[j].in && bds[j-1].out != bds[j].out) {
+				return fmt.Sprintf("%s: boundary order not preserved: %d<=%d but %d and %d", desc, bds[j-1].in, bds[j].in, bds[j-1].out, bds[j].out)
 			}
 		}
 	}
